@@ -21,6 +21,8 @@ PROP_RULES = {
     "C05": {"SelectPriority", "EarliestAccepted", "MailboxPreserved", "TimeoutNotEarly", "AwaitYieldsResult",
             "AwaitResultNotDropped", "FilterIsVerdict", "SelectOpen"},
     "C15": {"NoWorkerCrash", "NoInternalError", "FailureContained", "AwaitersFail", "ResultStable"},
+    "C06": {"Counted", "NoReachableFreed", "FreeList", "NoOrphan", "ContentStable", "ContentPreserved",
+            "RefcountAssertion"},
 }
 MC_INVARIANTS = {
     "C03": ["NoInternalError", "NoLostWakeup", "SpawnerGetsPid"],
@@ -28,6 +30,7 @@ MC_INVARIANTS = {
     "C05": ["SelectPriority", "EarliestAccepted", "MailboxPreserved", "TimeoutNotEarly", "AwaitYieldsResult",
             "AwaitResultNotDropped"],
     "C15": ["NoInternalError", "FailureContained", "AwaitersFail"],
+    "C06": ["NoInternalError", "NoLostWakeup", "ExactlyOnce"],
 }
 # behaviours of the tree before the corresponding `fix:` commits (none once they are in)
 CODE_DEFECTS = json.load(open(os.path.join(common.VERIF, "spec", "code_defects.json")))["defects"]
@@ -54,7 +57,8 @@ def model_check(s, prop, workers=4, timeout=900):
     invs = list(MC_INVARIANTS[prop])
     props = ["ResultStable"] if prop == "C15" else []
     extra = None
-    if prop == "C03" and s.get("confluent"):
+    expected_outcome = None
+    if prop in ("C03", "C06") and s.get("confluent"):
         # pass 1: one simulated behaviour fixes the expected canonical results
         cfg1 = os.path.join(WORK, "mc1_%s.cfg" % tag)
         write_cfg(cfg1, ["DumpExpected"])
@@ -63,6 +67,13 @@ def model_check(s, prop, workers=4, timeout=900):
         if not os.path.exists(efile):
             raise ToolError("model of %s never becomes quiescent in simulation" % s["name"])
         invs += ["Confluent"] + (["NoHang"] if s.get("terminates") else [])
+        try:
+            o = json.load(open(efile + ".json"))["outcome"]
+            if o and o[0].get("ok"):
+                expected_outcome = o[0]["v"]
+            os.remove(efile + ".json")
+        except (OSError, ValueError, KeyError):
+            pass
     cfg = os.path.join(WORK, "mc_%s.cfg" % tag)
     write_cfg(cfg, invs, props)
     res = tlc("MC_Runtime", cfg, env=env, workers=workers, timeout=timeout,
@@ -70,6 +81,7 @@ def model_check(s, prop, workers=4, timeout=900):
     for f in (sfile, efile, cfg):
         if os.path.exists(f):
             os.remove(f)
+    res.expected_outcome = expected_outcome
     return res
 
 
@@ -95,6 +107,8 @@ def make_requests(scenarios, entry, nsched, seed0, nws=None, keep=10, rare_max=6
             nw = s["nw"] if nws is None else nws[(i + len(s["name"])) % len(nws)]
             m = {"scenario": s["name"], "entry": entry[s["name"]], "confluent": bool(s.get("confluent")),
                  "terminates": bool(s.get("terminates"))}
+            if s.get("expected_outcome") is not None:
+                m["expected_outcome"] = s["expected_outcome"]
             driver = "default" if i == 0 else "random"
             reqs.append({"id": "%s#%d" % (s["name"], i), "group": s["name"], "keep": keep, "rare_max": rare_max,
                          "src": src, "nw": nw, "driver": driver,
@@ -172,6 +186,8 @@ def run(prop, tier):
             s = futs[fut]
             res = fut.result()
             check.add_tlc("mc:" + s["name"], res)
+            if getattr(res, "expected_outcome", None) is not None:
+                s["expected_outcome"] = res.expected_outcome
             if not res.ok:
                 mc_fail.append((s["name"], res.violated, res.out[-3000:]))
     check.cov["model_check_wall_s"] = round(time.time() - t0, 1)
@@ -181,6 +197,17 @@ def run(prop, tier):
         check.cov["model_counterexamples"] = [(n, v) for n, v, _ in mc_fail]
         for n, v, out in mc_fail:
             print("MODEL-COUNTEREXAMPLE scenario=%s invariants=%s (replayed on the real code below)" % (n, v))
+    if prop == "C06":
+        # the accounting design itself: spec/Heap.tla, exhaustive at small scope
+        cfg = os.path.join(WORK, "MC_Heap_%d.cfg" % os.getpid())
+        txt = open(os.path.join(common.SPEC, "MC_Heap.cfg")).read()
+        open(cfg, "w").write(re.sub(r"MaxOps = \d+", "MaxOps = %d" % (10 if tier == "quick" else 12), txt))
+        hres = tlc("Heap", cfg, workers=12, timeout=3000, xmx="12g")
+        check.add_tlc("mc:Heap", hres)
+        os.remove(cfg)
+        if not hres.ok:
+            print("MODEL-COUNTEREXAMPLE spec=Heap.tla invariants=%s" % hres.violated)
+            check.cov.setdefault("model_counterexamples", []).append(("Heap", hres.violated))
     # ---- 2. the real code under random schedules
     table, entry = batch_scripts(scenarios)
     scriptsfile = os.path.join(WORK, "scripts_%s.json" % prop)
@@ -189,6 +216,13 @@ def run(prop, tier):
     nws = [1, 2, 3, 4, 2, 3]
     reqs = make_requests(scenarios, entry, nsched, seed, nws, keep=8 if tier == "quick" else 40,
                          rare_max=6 if tier == "quick" else 20)
+    if prop == "C06":
+        for i, lines in enumerate(families.HEAP_SESSIONS):
+            for k in range(4 if tier == "quick" else 40):
+                reqs.append({"id": "session%d#%d" % (i, k), "group": "session%d" % i, "keep": 4, "rare_max": 4,
+                             "lines": lines, "nw": nws[k % len(nws)], "driver": "random" if k else "default",
+                             "seed": seed * 7907 + i * 101 + k, "quanta": QUANTA if k else [1000], "max_steps": 6000,
+                             "meta": {"scenario": "session%d" % i, "entry": 0, "confluent": False, "terminates": False}})
     tracefile = os.path.join(WORK, "trace_%s.ndjson" % prop)
     t1 = time.time()
     summaries = run_sim(reqs, tracefile)
@@ -209,7 +243,10 @@ def run(prop, tier):
     # ---- 3. property monitor (L1): the only source of violations
     res, viols = monitor(tracefile, scriptsfile)
     check.add_tlc("monitor:RuntimeObs", res)
-    mine = [v for v in viols if v["rule"] in PROP_RULES[prop] or v["prop"] == prop]
+    for v in viols:
+        if v["rule"] == "NoWorkerCrash" and re.search(r"refcount invariant|use-after-free|release underflow|freed heap slot", v["detail"]):
+            v["also"] = "C06"
+    mine = [v for v in viols if v["rule"] in PROP_RULES[prop] or v["prop"] == prop or v.get("also") == prop]
     check.cov["monitor_violations_other_properties"] = len(viols) - len(mine)
     by_id = {r["id"]: r for r in reqs}
     sched = {s["id"]: s["schedule"] for s in summaries}
@@ -226,7 +263,18 @@ def run(prop, tier):
                         name=v["rule"], key=key,
                         what="%s violated in run %s at record %d: %s" % (v["rule"], v["run"], v["record"], v["detail"][:300]))
     # ---- 4. trace validation against the mechanism model (L2): drift is reported, not alarmed
-    res2, bad = validate(tracefile, scriptsfile, CODE_DEFECTS)
+    l2file = tracefile
+    if any(r["meta"]["entry"] == 0 for r in reqs):
+        # unscripted REPL sessions have no mechanism-model counterpart: only the monitor judges them
+        l2file = tracefile + ".scripted"
+        keep = True
+        with open(tracefile) as fi, open(l2file, "w") as fo:
+            for line in fi:
+                if '"k":"init"' in line:
+                    keep = json.loads(line)["meta"]["entry"] != 0
+                if keep:
+                    fo.write(line)
+    res2, bad = validate(l2file, scriptsfile, CODE_DEFECTS)
     check.add_tlc("trace:RuntimeTrace", res2)
     if bad is not None:
         check.cov["model_drift"] = 1
